@@ -3121,3 +3121,206 @@ func TestGovcReplay(t *testing.T) {
 		},
 	}}, harnesses...)
 }
+
+func init() {
+	harnesses = append([]*harness{{
+		name:      "dubbo corrupt body replay (complete frames whose hessian body makes the decoder library panic)",
+		modelFree: true,
+		match: func(o *Obligation) bool {
+			return strings.HasSuffix(o.Func, "dubbo.getServiceAwareMeta")
+		},
+		run: func(eng *Engine, o *Obligation) *ReplayOutcome {
+			src := `package dubbo
+
+import (
+	"context"
+	"fmt"
+	"testing"
+
+	"mosn.io/pkg/buffer"
+)
+
+// The failed obligation says: a call into the hessian2 decoder (which can panic on corrupt input) is not below an
+// installed recover(). Replay: three complete dubbo request frames (hessian serialization) with a corrupt body;
+// Decode must answer with an error, not panic.
+func TestGovcReplay(t *testing.T) {
+	inputs := [][]byte{
+		// method field: string chunk announcing more bytes than the body holds
+		{218, 187, 194, 0, 0, 0, 0, 0, 0, 0, 0, 1, 0, 0, 0, 20, 5, 50, 46, 48, 46, 50, 3, 97, 46, 98, 1, 49, 1, 237, 174, 175, 84, 220, 54, 229, 64},
+		// version field: typed list / map with truncated content
+		{218, 187, 194, 0, 0, 0, 0, 0, 0, 0, 0, 1, 0, 0, 0, 20, 5, 50, 46, 48, 46, 50, 3, 97, 46, 98, 127, 128, 1, 109, 0, 72, 0, 0, 0, 0, 251, 211, 227, 144, 33, 161},
+		// framework-version field: list type reference with a negative index
+		{218, 187, 194, 0, 0, 0, 0, 255, 0, 0, 0, 1, 0, 0, 0, 20, 118, 216, 46, 48, 46, 50, 3, 97, 46, 98, 1, 49, 1, 109, 0, 72, 90, 0, 0, 0, 207, 62, 232, 229, 109, 235},
+	}
+	bad := 0
+	for i, in := range inputs {
+		func() {
+			defer func() {
+				if r := recover(); r != nil {
+					bad++
+					fmt.Printf("REPLAY-CONFIRMED input #%d (%d bytes, complete frame with a corrupt body): dubboProtocol.Decode panics instead of returning an error: %v\n", i, len(in), r)
+				}
+			}()
+			_, _ = dubboProtocol{}.Decode(context.Background(), buffer.NewIoBufferBytes(in))
+		}()
+	}
+	if bad == 0 {
+		fmt.Println("REPLAY-NOT-REPRODUCED every corrupt body is answered with a decode error")
+	}
+}
+`
+			out, _ := runOverlayTest("pkg/protocol/xprotocol/dubbo", src, "^TestGovcReplay$")
+			return outcomeFromOutput(src, out)
+		},
+	}}, harnesses...)
+}
+
+func init() {
+	harnesses = append([]*harness{{
+		name:      "tars corrupt packet replay (complete frame with a corrupt inner length: the codec library panics)",
+		modelFree: true,
+		match: func(o *Obligation) bool {
+			return (strings.HasSuffix(o.Func, "tars.decodeRequest") || strings.HasSuffix(o.Func, "tars.decodeResponse")) && (o.Kind == "panic" || o.Kind == "nil" || o.Kind == "bounds")
+		},
+		run: func(eng *Engine, o *Obligation) *ReplayOutcome {
+			src := `package tars
+
+import (
+	"context"
+	"fmt"
+	"testing"
+
+	"mosn.io/pkg/buffer"
+)
+
+// The failed obligation says: the packet reader of the tars codec (which can panic on a corrupt packet) is called
+// outside a recover(). Replay: a complete 30-byte frame that is valid up to the sBuffer field, whose inner length is
+// corrupt; Decode must answer with an error, not panic.
+func TestGovcReplay(t *testing.T) {
+	in := []byte{0, 0, 0, 30, 16, 1, 44, 60, 64, 1, 86, 1, 97, 102, 1, 98, 121, 0, 130, 1, 0, 140, 152, 12, 168, 12, 0, 0, 0, 0, 76, 144, 138, 68, 131, 158, 64}
+	defer func() {
+		if r := recover(); r != nil {
+			fmt.Printf("REPLAY-CONFIRMED tarsProtocol.Decode panics on a complete frame with a corrupt inner length instead of returning an error: %v\n", r)
+		}
+	}()
+	_, err := tarsProtocol{}.Decode(context.Background(), buffer.NewIoBufferBytes(in))
+	fmt.Println("REPLAY-NOT-REPRODUCED Decode answered with", err)
+}
+`
+			out, _ := runOverlayTest("pkg/protocol/xprotocol/tars", src, "^TestGovcReplay$")
+			return outcomeFromOutput(src, out)
+		},
+	}}, harnesses...)
+}
+
+func init() {
+	harnesses = append([]*harness{{
+		name:      "route lookup panic replay (variable matcher with an invalid regex; non-boolean DSL expression)",
+		modelFree: true,
+		match: func(o *Obligation) bool {
+			return strings.HasSuffix(o.Func, "router.(*VariableRouteRuleImpl).Match") || strings.HasSuffix(o.Func, "router.(*DslExpressionRouteRuleImpl).Match") || strings.HasSuffix(o.Func, "router.NewRouteBase")
+		},
+		run: func(eng *Engine, o *Obligation) *ReplayOutcome {
+			src := `package router
+
+import (
+	"context"
+	"fmt"
+	"testing"
+
+	v2 "mosn.io/mosn/pkg/config/v2"
+	"mosn.io/mosn/pkg/protocol"
+	"mosn.io/mosn/pkg/types"
+	"mosn.io/pkg/variable"
+)
+
+func govcLookup(label string, match v2.RouterMatch) (confirmed bool) {
+	defer func() {
+		if r := recover(); r != nil {
+			confirmed = true
+			fmt.Printf("REPLAY-CONFIRMED %s: the configuration is accepted and every lookup in the virtual host panics: %v\n", label, r)
+		}
+	}()
+	routers, err := NewRouters(&v2.RouterConfiguration{
+		VirtualHosts: []v2.VirtualHost{{Name: "default", Domains: []string{"*"}, Routers: []v2.Router{{RouterConfig: v2.RouterConfig{
+			Match: match,
+			Route: v2.RouteAction{RouterActionConfig: v2.RouterActionConfig{ClusterName: "c"}},
+		}}}}},
+	})
+	if err != nil {
+		fmt.Printf("(%s: refused at configuration time: %v)\n", label, err)
+		return false
+	}
+	ctx := variable.NewVariableContext(context.Background())
+	variable.SetString(ctx, types.VarPath, "/")
+	routers.MatchRoute(ctx, protocol.CommonHeader(map[string]string{}))
+	return false
+}
+
+// The failed obligation says: a route lookup can panic over a route the configuration accepted. Replay: a variable
+// matcher with an invalid regex, and a DSL expression that compiles but is not boolean.
+func TestGovcReplay(t *testing.T) {
+	a := govcLookup("variable matcher with an invalid regex", v2.RouterMatch{Variables: []v2.VariableMatcher{{Name: "x", Regex: "("}}})
+	b := govcLookup("DSL expression that is not boolean", v2.RouterMatch{DslExpressions: []v2.DslExpressionMatcher{{Expression: "request.method"}}})
+	if !a && !b {
+		fmt.Println("REPLAY-NOT-REPRODUCED no lookup panics")
+	}
+}
+`
+			out, _ := runOverlayTest("pkg/router", src, "^TestGovcReplay$")
+			return outcomeFromOutput(src, out)
+		},
+	}}, harnesses...)
+}
+
+func init() {
+	harnesses = append([]*harness{{
+		name:      "HTTP/2 stream-error frame replay (WINDOW_UPDATE increment 0 on a stream, followed by a PING)",
+		modelFree: true,
+		match: func(o *Obligation) bool {
+			return strings.HasSuffix(o.Func, "http2.(*MFramer).ReadFrame") && strings.Contains(o.Name, "streamErrorConsumed")
+		},
+		run: func(eng *Engine, o *Obligation) *ReplayOutcome {
+			src := `package http2
+
+import (
+	"context"
+	"fmt"
+	"testing"
+
+	"mosn.io/mosn/pkg/module/http2/hpack"
+	"mosn.io/pkg/buffer"
+)
+
+// The failed obligation says: a frame that is answered with a stream error (the connection goes on) is left in the
+// buffer. Replay: WINDOW_UPDATE with increment 0 on stream 1 (a stream error by RFC 7540) followed by a PING; the
+// second ReadFrame - what the next Dispatch does - must reach the PING.
+func TestGovcReplay(t *testing.T) {
+	fr := new(MFramer)
+	fr.Framer.ReadMetaHeaders = hpack.NewDecoder(initialHeaderTableSize, nil)
+	fr.Framer.SetMaxReadFrameSize(defaultMaxReadFrameSize)
+	raw := []byte{
+		0x00, 0x00, 0x04, byte(FrameWindowUpdate), 0x00, 0x00, 0x00, 0x00, 0x01,
+		0x00, 0x00, 0x00, 0x00,
+		0x00, 0x00, 0x08, byte(FramePing), 0x00, 0x00, 0x00, 0x00, 0x00,
+		1, 2, 3, 4, 5, 6, 7, 8,
+	}
+	data := buffer.NewIoBufferBytes(raw)
+	_, _, err := fr.ReadFrame(context.Background(), data, 0)
+	if _, ok := err.(StreamError); !ok {
+		fmt.Println("REPLAY-INCONCLUSIVE first frame: expected a StreamError, got", err)
+		return
+	}
+	f, _, err := fr.ReadFrame(context.Background(), data, 0)
+	if _, ok := f.(*PingFrame); err != nil || !ok {
+		fmt.Printf("REPLAY-CONFIRMED after the stream error the same frame is read again (err=%v, %d of %d bytes still buffered): the PING behind it is never reached, the connection is wedged\n", err, data.Len(), len(raw))
+		return
+	}
+	fmt.Println("REPLAY-NOT-REPRODUCED the frame in error was consumed, the next read reaches the PING")
+}
+`
+			out, _ := runOverlayTest("pkg/module/http2", src, "^TestGovcReplay$")
+			return outcomeFromOutput(src, out)
+		},
+	}}, harnesses...)
+}
